@@ -25,8 +25,12 @@ PREDICATES = [
     dict(tag="symplain", pred="UnitRow.symPlain", imports=["Barril.Model.Ctor"], kinds=["posc"], over="units"),
     dict(tag="catplain", pred="CatRow.namePlain", imports=["Barril.Model.Ctor"], kinds=["posc"], over="cats"),
     # C14: the shipped tables are well-formed registries (symbols, base rows, categories), row by row
-    dict(tag="reg14u", pred="UnitRow.regOk {db}", imports=["Barril.Model.RegTable"], kinds=["posc", "simple"], over="units"),
-    dict(tag="reg14c", pred="CatRow.regOk {db}", imports=["Barril.Model.RegTable"], kinds=["posc", "simple"], over="cats"),
+    # (list-based predicates for the small FillSimple database; for POSC the unit clauses follow from the index
+    # facts of C06 - Proofs/RegIndexLemmas.lean - and the category clauses are evaluated through the index)
+    dict(tag="reg14u", pred="UnitRow.regOk {db}", imports=["Barril.Model.RegTable"], kinds=["simple"], over="units"),
+    dict(tag="reg14c", pred="CatRow.regOk {db}", imports=["Barril.Model.RegTable"], kinds=["simple"], over="cats"),
+    dict(tag="reg14ct", pred="CatRow.regOkT Barril.Gen.poscTree Barril.Gen.poscBases {db}",
+         imports=["Barril.Model.RegIndex", "Barril.Gen.PoscTree", "Barril.Gen.PoscBases"], kinds=["posc"], over="cats"),
     dict(tag="valshape", pred="UnitRow.valShape", imports=["Barril.Model.Valid"], kinds=["posc", "nocat"], over="units"),
 ]
 
